@@ -102,7 +102,10 @@ def positions(n, tier, kind):
 def main(tier, seed):
     eng = engine.Engine(PROP, tier, seed, "fault_enumeration")
     engine.selftest(eng)
-    H = histories(eng.local_ctx())
+    H = engine.scenarios(eng, lambda: histories(eng.local_ctx()))
+    H = {k: v for k, v in H.items() if v is not None}
+    if not H:
+        raise engine.HarnessError("no history could be built: " + str(eng.notes.get("skipped_scenarios")))
     cases = []
     nf = 0
     for name, tree in H.items():
